@@ -4,6 +4,6 @@ pid=$1; r=$2
 for m in /tmp/wt/${pid}r${r}/MUTANTS/m*; do
   [ -f $m/patch.diff ] || continue
   p=$(grep -m1 '^package ' $m/demo_test.go | awk '{print $2}' | sed 's/_test$//')
-  case "$p" in genql) pkg=.;; *) pkg=$p;; esac
+  case "$p" in genql) pkg=.;; sanitize) pkg=sanitizer;; *) pkg=$p;; esac
   ALSO=1 /verif/tools/try_mutant.sh $pid $m $pkg
 done
